@@ -235,6 +235,7 @@ theorem matmulOp_refines (a b r : Op α) (h : matmulOp a b = .ok r) (i j : Nat) 
       split at h
       · cases h; simp [denote, key]
       · cases h; simp [denote, key]
+      · cases h; simp [denote]
       · split_ifs at h with h4
         · cases h
           rw [key, denote_of_isDiag b h4]
